@@ -45,22 +45,20 @@ fn any_cookie_config() -> SessionCookieConfig {
     // one heap string with a symbolic byte, not a choice between two heap strings of different
     // length: symbolic-length heap strings are mis-modelled by Kani 0.68/CBMC 6.11
     // (see /verif/notes/kani_repros_strings.rs)
-    let second: u8 = kani::any();
-    kani::assume(second == b'd' || second == b'x');
+    let second: u8 = if nd::any_bool() { b'd' } else { b'x' };
     c.name = unsafe { String::from_utf8_unchecked(vec![b'i', second]) };
-    c.domain = if kani::any() { Some("d".to_string()) } else { None };
-    c.path = if kani::any() { Some("/p".to_string()) } else { None };
-    c.secure = kani::any();
-    c.http_only = kani::any();
-    let ss: u8 = kani::any();
-    kani::assume(ss < 4);
+    c.domain = if nd::any_bool() { Some("d".to_string()) } else { None };
+    c.path = if nd::any_bool() { Some("/p".to_string()) } else { None };
+    c.secure = nd::any_bool();
+    c.http_only = nd::any_bool();
+    let ss: u8 = nd::u8_below(4);
     c.same_site = match ss {
         0 => None,
         1 => Some(SameSite::Strict),
         2 => Some(SameSite::Lax),
         _ => Some(SameSite::None),
     };
-    c.kind = if kani::any() { SessionCookieKind::Persistent } else { SessionCookieKind::Session };
+    c.kind = if nd::any_bool() { SessionCookieKind::Persistent } else { SessionCookieKind::Session };
     c
 }
 
@@ -82,7 +80,7 @@ fn middleware_body(only: IdK) -> (u8, bool) {
     let w = any_world_k(any_cookie_config(), Some(only));
     let s = build(&w.sh, w.store, w.cfg);
     let m = w.model;
-    let processor = Processor { encrypts: kani::any(), signs: kani::any() };
+    let processor = Processor { encrypts: nd::any_bool(), signs: nd::any_bool() };
     let will_encrypt = processor.will_encrypt("");
     let will_sign = processor.will_sign("");
     let mut jar = ResponseCookies::default();
@@ -201,3 +199,14 @@ fn c12_middleware_new() {
     kani::cover!(code == 4 && client, "encrypted cookie with client state");
 }
 
+
+#[cfg(test)]
+mod native_search {
+    use super::*;
+    fn reset() {
+        uuid::verif_reset();
+        serde_json::verif::set_tape(serde_json::verif::EMPTY_TAPE);
+    }
+    macro_rules! searches { ($($h:ident),*) => { $( #[test] fn $h() { nd::search(stringify!($h), super::$h, reset) } )* } }
+    searches!(c12_middleware_existing, c12_middleware_renamed, c12_middleware_new);
+}
